@@ -29,14 +29,41 @@ SharedTexts == <<
   << Tk("Id", "lower"), OpK("("), Tk("Id", "s1"), OpK(")") >>,
   \* $c = ($c ?? 0) + 1, $c   evaluated by runners that were never given a data map (data index 0): each its own locals
   << Tk("Id", "$c"), OpK("="), OpK("("), Tk("Id", "$c"), OpK("??"), Tk("Num", <<FALSE, <<>>, 0>>), OpK(")"), OpK("+"), Tk("Num", <<FALSE, <<1>>, 0>>),
-     OpK(","), Tk("Id", "$c") >> >>
+     OpK(","), Tk("Id", "$c") >>,
+  \* hour(useTimezone(t, z)) with a zone name the process has not seen before (data 8-31): whatever the library keeps
+  \* about zones is first filled while several goroutines ask at once (zone rules are not specified: the value is open)
+  << Tk("Id", "hour"), OpK("("), Tk("Id", "useTimezone"), OpK("("), Tk("Id", "t"), OpK(","), Tk("Id", "z"), OpK(")"), OpK(")") >> >>
 Datas == << [a |-> <<"int", 1>>, b |-> <<"int", 2>>],
             [a |-> <<"dec", FALSE, <<1>>, 1>>, b |-> <<"f64", FALSE, <<5>>, -1>>],
             [a |-> <<"int64", FALSE, <<9,0,0,7,1,9,9,2,5,4,7,4,0,9,9,3>>>>, b |-> <<"int", -3>>],
             [s1 |-> <<"str", <<99,97,98>>>>, s2 |-> <<"str", <<97,97,97>>>>],
             [s1 |-> <<"str", <<98,97>>>>, s2 |-> <<"str", <<97,98>>>>],
             [m |-> <<"map", [a |-> <<"int", 4>>]>>, b |-> <<"dec", FALSE, <<1,5>>, -1>>],
-            [a |-> <<"dec", FALSE, <<2,6>>, -1>>, b |-> <<"dec", FALSE, <<4,5>>, -1>>] >>
+            [a |-> <<"dec", FALSE, <<2,6>>, -1>>, b |-> <<"dec", FALSE, <<4,5>>, -1>>],
+            [t |-> <<"time", 19000, 3600000, 0>>, z |-> <<"str", <<65,115,105,97,47,84,111,107,121,111>>>>],
+            [t |-> <<"time", 19000, 3600000, 0>>, z |-> <<"str", <<69,117,114,111,112,101,47,80,97,114,105,115>>>>],
+            [t |-> <<"time", 19000, 3600000, 0>>, z |-> <<"str", <<65,109,101,114,105,99,97,47,67,104,105,99,97,103,111>>>>],
+            [t |-> <<"time", 19000, 3600000, 0>>, z |-> <<"str", <<65,102,114,105,99,97,47,67,97,105,114,111>>>>],
+            [t |-> <<"time", 19000, 3600000, 0>>, z |-> <<"str", <<80,97,99,105,102,105,99,47,65,117,99,107,108,97,110,100>>>>],
+            [t |-> <<"time", 19000, 3600000, 0>>, z |-> <<"str", <<65,115,105,97,47,75,111,108,107,97,116,97>>>>],
+            [t |-> <<"time", 19000, 3600000, 0>>, z |-> <<"str", <<65,109,101,114,105,99,97,47,68,101,110,118,101,114>>>>],
+            [t |-> <<"time", 19000, 3600000, 0>>, z |-> <<"str", <<65,109,101,114,105,99,97,47,83,97,111,95,80,97,117,108,111>>>>],
+            [t |-> <<"time", 19000, 3600000, 0>>, z |-> <<"str", <<69,117,114,111,112,101,47,66,101,114,108,105,110>>>>],
+            [t |-> <<"time", 19000, 3600000, 0>>, z |-> <<"str", <<69,117,114,111,112,101,47,77,97,100,114,105,100>>>>],
+            [t |-> <<"time", 19000, 3600000, 0>>, z |-> <<"str", <<65,115,105,97,47,68,117,98,97,105>>>>],
+            [t |-> <<"time", 19000, 3600000, 0>>, z |-> <<"str", <<65,115,105,97,47,83,101,111,117,108>>>>],
+            [t |-> <<"time", 19000, 3600000, 0>>, z |-> <<"str", <<65,117,115,116,114,97,108,105,97,47,83,121,100,110,101,121>>>>],
+            [t |-> <<"time", 19000, 3600000, 0>>, z |-> <<"str", <<65,102,114,105,99,97,47,76,97,103,111,115>>>>],
+            [t |-> <<"time", 19000, 3600000, 0>>, z |-> <<"str", <<65,109,101,114,105,99,97,47,84,111,114,111,110,116,111>>>>],
+            [t |-> <<"time", 19000, 3600000, 0>>, z |-> <<"str", <<69,117,114,111,112,101,47,82,111,109,101>>>>],
+            [t |-> <<"time", 19000, 3600000, 0>>, z |-> <<"str", <<65,115,105,97,47,66,97,110,103,107,111,107>>>>],
+            [t |-> <<"time", 19000, 3600000, 0>>, z |-> <<"str", <<65,109,101,114,105,99,97,47,76,105,109,97>>>>],
+            [t |-> <<"time", 19000, 3600000, 0>>, z |-> <<"str", <<69,117,114,111,112,101,47,79,115,108,111>>>>],
+            [t |-> <<"time", 19000, 3600000, 0>>, z |-> <<"str", <<65,115,105,97,47,77,97,110,105,108,97>>>>],
+            [t |-> <<"time", 19000, 3600000, 0>>, z |-> <<"str", <<80,97,99,105,102,105,99,47,70,105,106,105>>>>],
+            [t |-> <<"time", 19000, 3600000, 0>>, z |-> <<"str", <<65,109,101,114,105,99,97,47,66,111,103,111,116,97>>>>],
+            [t |-> <<"time", 19000, 3600000, 0>>, z |-> <<"str", <<69,117,114,111,112,101,47,65,116,104,101,110,115>>>>],
+            [t |-> <<"time", 19000, 3600000, 0>>, z |-> <<"str", <<65,115,105,97,47,75,97,114,97,99,104,105>>>>] >>
 \* texts (bytes) that other goroutines parse meanwhile: escapes, long literals, a rejected one
 ParseTexts == << <<39,92,117,52,70,49,49,92,117,52,70,51,52,39,43,39,92,120,52,49,39>>,      \* '\u4F11\u4F34'+'\x41'
                  <<39,92,117,48,48,52,49,92,120,54,50,92,117,52,101,50,100,39>>,            \* '\u0041\x62\u4e2d'
